@@ -8,6 +8,9 @@
 //	            barrier inside a host callback, so that both invocations are active at the same time
 //	recvbind    the wrapper of a METHOD of a script value (a method value handed to the host, a deferred method call): the
 //	            receiver variable is assigned another value after the wrapper was made and before it is called
+//	ifacerecv   the method wrappers of a CONVERSION of a script value to a host interface (`var s fmt.Stringer = p`, an argument of
+//	            hp.RegS, `sort.Sort(q)` with pointer and value receivers mixed): the pointee is modified, and the converted
+//	            variable reassigned, between the conversion and the host's calls
 //
 // impl = the wrapper as described; twin = the same recursion / sequence written purely in the script; ref = compiled Go.
 package main
@@ -16,6 +19,7 @@ import (
 	"context"
 	"fmt"
 	"reflect"
+	"sort"
 	"strings"
 	"sync"
 	"time"
@@ -36,6 +40,7 @@ type retainT struct {
 	fd    func(string, int) int
 	fc    func(int, string) (int, string)
 	fm    func(int) int
+	fs    fmt.Stringer
 	count int
 	cond  *sync.Cond
 	need  int
@@ -152,6 +157,54 @@ func Setup() {}`, k1))
 			"r2 := "+fireM, `hp.Rec("res.2", "int", r2)`, `hp.Rec("z.N", "int", z.N)`,
 			// deferred call of a value-receiver method
 			fmt.Sprintf("func() { y := Acc{N: %d}; defer y.Show(); y = Acc{N: %d}; hp.Rec(\"y.N\", \"int\", y.N) }()", a0, a1))
+	case "ifacerecv":
+		s.decls = append(s.decls, `type Lab struct {
+	N int
+	S string
+}
+func (a Lab) String() string { return fmt.Sprint("Lab<", a.N, a.S, ">") }
+type IntS struct {
+	V     []int
+	Swaps int
+}
+func (s *IntS) Len() int { return len(s.V) }
+func (s IntS) Less(i, j int) bool { return s.V[i] < s.V[j] }
+func (s *IntS) Swap(i, j int) { nv := append([]int{}, s.V...); nv[i], nv[j] = nv[j], nv[i]; s.V = nv; s.Swaps++ }
+func Setup() {}`)
+		a0, a1, a2 := c.Args[0].I, c.Args[1].I, c.Args[2].I
+		reg := func(e string) string {
+			if twin {
+				return "cur = " + e
+			}
+			return "hp.RegS(" + e + ")"
+		}
+		fire := func(tag string) []string {
+			call := "hp.FireS()"
+			if twin {
+				call = "cur.String()"
+			}
+			v := strings.ReplaceAll(tag, ".", "")
+			return []string{v + " := " + call, fmt.Sprintf("hp.Rec(%q, \"string\", %s)", tag, v)}
+		}
+		if twin {
+			s.run = append(s.run, "var cur fmt.Stringer")
+		}
+		var vs []string
+		for _, a := range c.Args[3:] {
+			vs = append(vs, fmt.Sprint(a.I))
+		}
+		s.run = append(s.run, fmt.Sprintf(`p := &Lab{N: %d, S: "p"}`, a0), "var s fmt.Stringer = p", reg("s"))
+		s.run = append(s.run, fire("s.0")...)
+		s.run = append(s.run, fmt.Sprintf("p.N = %d", a1)) // the pointee changes: a value-receiver method sees it
+		s.run = append(s.run, fire("s.1")...)
+		s.run = append(s.run, fmt.Sprintf(`p = &Lab{N: %d, S: "q"}`, a2)) // the variable changes: the interface does not follow
+		s.run = append(s.run, fire("s.2")...)
+		s.run = append(s.run, fmt.Sprintf(`x := Lab{N: %d, S: "x"}`, a0), "var t fmt.Stringer = x", reg("t"), fmt.Sprintf("x.N = %d", a1)) // a copy is held
+		s.run = append(s.run, fire("t.0")...)
+		s.run = append(s.run, reg("p"), fmt.Sprintf("p.N = %d", a0)) // converted at the call
+		s.run = append(s.run, fire("u.0")...)
+		s.run = append(s.run, fmt.Sprintf("q := &IntS{V: []int{%s}}", strings.Join(vs, ", ")), "sort.Sort(q)",
+			`hp.Rec("sorted", "[]int", q.V)`, `hp.Rec("swaps", "int", q.Swaps)`)
 	case "concurrent":
 		s.decls = append(s.decls, fmt.Sprintf(`func R(a int, s string) (int, string) {
 	loc := a*%d + %d
@@ -271,6 +324,58 @@ func (rt *retainT) recvbind() {
 	}()
 }
 
+// the native twins of the script types Lab and IntS (mode ifacerecv)
+type lab struct {
+	N int
+	S string
+}
+
+func (a lab) String() string { return fmt.Sprint("Lab<", a.N, a.S, ">") }
+
+type intS struct {
+	V     []int
+	Swaps int
+}
+
+func (s *intS) Len() int          { return len(s.V) }
+func (s intS) Less(i, j int) bool { return s.V[i] < s.V[j] }
+func (s *intS) Swap(i, j int) {
+	nv := append([]int{}, s.V...)
+	nv[i], nv[j] = nv[j], nv[i]
+	s.V = nv
+	s.Swaps++
+}
+
+// ifacerecv: the reference of mode ifacerecv.
+func (rt *retainT) ifacerecv() {
+	c, env := rt.c, rt.env
+	ri := func(tag string, v interface{}) { env.recordStatic(tag, nil, v) }
+	a0, a1, a2 := int(c.Args[0].I), int(c.Args[1].I), int(c.Args[2].I)
+	p := &lab{N: a0, S: "p"}
+	var s fmt.Stringer = p
+	rt.fs = s
+	ri("s.0", rt.fs.String())
+	p.N = a1
+	ri("s.1", rt.fs.String())
+	p = &lab{N: a2, S: "q"}
+	ri("s.2", rt.fs.String())
+	x := lab{N: a0, S: "x"}
+	var t fmt.Stringer = x
+	rt.fs = t
+	x.N = a1
+	ri("t.0", rt.fs.String())
+	rt.fs = p
+	p.N = a0
+	ri("u.0", rt.fs.String())
+	q := &intS{}
+	for _, a := range c.Args[3:] {
+		q.V = append(q.V, int(a.I))
+	}
+	sort.Sort(q)
+	ri("sorted", q.V)
+	ri("swaps", q.Swaps)
+}
+
 // barrier: wait until `need` invocations are inside (or 3 s have passed: an implementation that serialises the calls).
 func (rt *retainT) barrier() {
 	rt.mu.Lock()
@@ -295,6 +400,8 @@ func (rt *retainT) exports() map[string]reflect.Value {
 		"Reg2":    reflect.ValueOf(func(f func(int, Pt) Pt) { rt.f2 = f }),
 		"RegD":    reflect.ValueOf(func(f func(string, int) int) { rt.fd = f }),
 		"RegC":    reflect.ValueOf(func(f func(int, string) (int, string)) { rt.fc = f }),
+		"RegS":    reflect.ValueOf(func(s fmt.Stringer) { rt.fs = s }),
+		"FireS":   reflect.ValueOf(func() string { return rt.fs.String() }),
 		"RegM":    reflect.ValueOf(func(f func(int) int) { rt.fm = f }),
 		"FireM":   reflect.ValueOf(func(k int) int { return rt.fm(k) }),
 		"Fire0":   reflect.ValueOf(func(n, a int) int { return rt.f0(n, a) }),
@@ -311,6 +418,8 @@ func (rt *retainT) drive() {
 	switch c.Mode {
 	case "recvbind":
 		rt.recvbind()
+	case "ifacerecv":
+		rt.ifacerecv()
 	case "reenter":
 		switch c.Tmpl {
 		case 0:
@@ -463,13 +572,25 @@ func implRetain(c *Case, env *nativeEnv) outcome {
 func (g *genCfg) genRetainCase(id string) *Case {
 	r := g.rng
 	c := &Case{ID: id, Dir: "retain"}
-	c.Mode = []string{"reenter", "reenter", "reenter", "repeat", "concurrent", "recvbind"}[r.Intn(6)]
+	c.Mode = []string{"reenter", "reenter", "reenter", "repeat", "concurrent", "recvbind", "ifacerecv"}[r.Intn(7)]
 	c.Via = []string{"callback", "eval-qual", "eval-plain", "symbols"}[r.Intn(4)]
 	c.Caller = "host"
 	c.Ks = []int64{int64(2 + r.Intn(7)), int64(r.Intn(50) - 10)}
 	iv := func() *Val { return &Val{T: typeByID("int"), I: int64(r.Intn(2000) - 1000)} }
 	sv := func() *Val { return &Val{T: typeByID("string"), S: []string{"", "a", "go", "yaegi", "q"}[r.Intn(5)]} }
 	switch c.Mode {
+	case "ifacerecv":
+		c.Via, c.Caller = "callback", "script"
+		c.Args = []*Val{iv(), iv(), iv()}
+		for c.Args[1].I == c.Args[0].I {
+			c.Args[1] = iv()
+		}
+		for c.Args[2].I == c.Args[0].I || c.Args[2].I == c.Args[1].I {
+			c.Args[2] = iv()
+		}
+		for n := 3 + r.Intn(5); n > 0; n-- {
+			c.Args = append(c.Args, &Val{T: typeByID("int"), I: int64(r.Intn(40) - 20)})
+		}
 	case "recvbind":
 		c.Via, c.Caller = "callback", "script"
 		a0 := iv()
